@@ -99,7 +99,7 @@ Definition all_small_ints (ds : list dval) : option bytes :=
     end) (Some []) ds.
 
 (* scalar destinations *)
-Definition rep_scalar (t : gtype) (d : dval) : rep :=
+Definition rep_scalar_core (t : gtype) (d : dval) : rep :=
   match t with
   | TBool =>
       match d with
@@ -186,7 +186,8 @@ Definition rep_scalar (t : gtype) (d : dval) : rep :=
   | TBigRat =>
       match d with
       | DInt z => RSome (rat_of_int z)
-      | DDouble txt => of_o (o_text orc (bs "ratf") txt) (fun t => RSome (XBigRat t)) RNone
+      | DDouble txt =>
+          of_o (o_float orc false txt) (fun _ => of_o (o_text orc (bs "ratf") txt) (fun t => RSome (XBigRat t)) RUnspec) RNone
       | DStr s => of_o (o_text orc (bs "rat") s) (fun t => RSome (XBigRat t)) (empty_or_none s)
       | DBool _ | DNull => RUnspec
       | _ => RNone
@@ -206,6 +207,14 @@ Definition rep_scalar (t : gtype) (d : dval) : rep :=
       | _ => RNone
       end
   | _ => RUnspec
+  end.
+
+(* the empty string into anything but a string or byte string: the library's "empty means zero" *)
+Definition rep_scalar (t : gtype) (d : dval) : rep :=
+  match t, d with
+  | TString, _ | TBytes, _ => rep_scalar_core t d
+  | _, DStr [] => RUnspec
+  | _, _ => rep_scalar_core t d
   end.
 
 Definition is_scalar_type (t : gtype) : bool :=
@@ -377,7 +386,11 @@ Fixpoint representable (fuel : nat) (t : gtype) (d : dval) {struct fuel} : rep :
                   (* an object standing in for a map: its fields as interface{} values *)
                   if mem_bytes name (o_registered opts) then RUnspec
                   else with_all (map (self TIface) ds) (fun vs => RSome (XMap (combine (map XStr names) vs)))
-              | TIface, TIface => RUnspec
+              | TIface, TIface =>
+                  (* the same with the field names boxed as interface{} keys *)
+                  if mem_bytes name (o_registered opts) then RUnspec
+                  else with_all (map (self TIface) ds) (fun vs =>
+                         RSome (XMap (combine (map (fun n => XIface TString (XStr n)) names) vs)))
               | _, _ => RNone
               end
           | DStr [] => RUnspec
